@@ -141,6 +141,10 @@ type SpecFile struct {
 	GhostVars []string // "$name sort"
 }
 
+// the colon that separates a loop / site key from its clause (keys such as
+// "range components[1:]" contain colons of their own)
+var clauseBodyRe = regexp.MustCompile(`:\s*(invariant|modifies|complete|assert|binds)\b`)
+
 var headerRe = regexp.MustCompile(`^func\s*(\(([^)]*)\))?\s*([A-Za-z0-9_./$:\[\]*]+)\s*\(([^)]*)\)\s*(\(([^)]*)\))?\s*$`)
 
 var clauseKw = map[string]bool{"requires": true, "ensures": true, "modifies": true, "allocates": true, "maypanic": true,
@@ -480,10 +484,12 @@ func parseSpecFile(path string) (*SpecFile, error) {
 				}
 			case "loop", "site":
 				// loop <fingerprint> #n: invariant[label] expr | modifies a, b
-				j := strings.Index(rest, ":")
-				// the fingerprint may itself contain "::"? no; but may contain ':'? not in practice
+				j := -1
+				if loc := clauseBodyRe.FindStringIndex(rest); loc != nil {
+					j = loc[0]
+				}
 				if j < 0 {
-					return nil, fail("%s: expected ':'", kw)
+					return nil, fail("%s: expected ': invariant|modifies|complete|assert'", kw)
 				}
 				key := normSpace(rest[:j])
 				body := strings.TrimSpace(rest[j+1:])
